@@ -454,10 +454,20 @@ func runC10(r *kit.Run) {
 			var cp *state.StateDB // a 'different operations' copy taken inside this segment
 			var cpObs Obs
 			cpWhere := ""
+			var pre []*Op
+			if b == 0 && s == 0 {
+				pre = append(pre, m.genInitDelegators())
+				if m.BigCodes && c.Chance("deploy-batch", 2, 3) {
+					pre = append(pre, m.genDeployBatch())
+				}
+				nOps += len(pre)
+			}
 			for i := 0; i < nOps; i++ {
 				r.Steps++
 				var op *Op
-				if seg.isEnd {
+				if i < len(pre) {
+					op = pre[i]
+				} else if seg.isEnd {
 					op = m.GenEndBlock(st)
 				} else {
 					switch c.Weighted("action", []int{12, 2, 2}) {
